@@ -2,8 +2,10 @@
 
 pub(crate) mod client;
 pub(crate) mod driver;
+pub(crate) mod explore;
 pub(crate) mod mutate;
 pub(crate) mod net;
+pub(crate) mod oracle;
 pub(crate) mod props;
 pub(crate) mod report;
 pub(crate) mod scen;
